@@ -15,7 +15,7 @@ structure PipeInv (p : Pipe) : Prop where
   cip_not_started : p.cip = true → p.started = false ∧ p.closed = true
   post_started : PEv.post ∈ p.evs → p.started = true
   rem_reaped : PEv.rem ∈ p.evs → p.reaped = true
-  rem_due : p.reaped = true → PEv.post ∈ p.evs → p.remReg = true → PEv.rem ∈ p.evs
+  rem_due : p.reaped = true → p.last ≠ 0 → p.remReg = true → PEv.rem ∈ p.evs
 
 @[simp] theorem rank_pre : PEv.pre.rank = 1 := rfl
 @[simp] theorem rank_post : PEv.post.rank = 2 := rfl
@@ -25,6 +25,14 @@ theorem rank_pos (e : PEv) : 1 ≤ e.rank ∧ e.rank ≤ 3 := by cases e <;> sim
 
 theorem rank_inj {a b : PEv} (h : a.rank = b.rank) : a = b := by
   cases a <;> cases b <;> simp [PEv.rank] at h <;> rfl
+
+/-- the weaker form: a reaped pipe that got ADD_POST got REM_POST if it was registered then -/
+theorem PipeInv.rem_post {p : Pipe} (hi : PipeInv p) (hr : p.reaped = true) (hp : PEv.post ∈ p.evs)
+    (hreg : p.remReg = true) : PEv.rem ∈ p.evs := by
+  refine hi.rem_due hr ?_ hreg
+  have := hi.bounded _ hp
+  simp only [rank_post] at this
+  omega
 
 /-- effect of nni_pipe_run_cb, case by case -/
 theorem runCb_cases (mask : Nat) (ev : PEv) (p : Pipe) :
@@ -175,13 +183,12 @@ theorem reap_step (mask : Nat) (p : Pipe) (hi : PipeInv p) (hr : p.reaped = fals
     · intro hc; exact ⟨(hi.cip_not_started hc).1, rfl⟩
     · exact hi.post_started
     · intro _; rfl
-    · -- REM was not delivered although registered: impossible when ADD_POST was
+    · -- REM was not delivered although registered: impossible when the pipe ever got an event
       intro _ hp hreg
       exfalso
       have hreg' : mask &&& 4 ≠ 0 := by simpa using hreg
       have hm : mask ≠ 0 := and_ne_zero_ne_zero hreg'
-      have h2 := hb _ hp
-      simp only [rank_post] at h2
+      have h2 : p.last ≠ 0 := hp
       unfold runCb at h
       have e1 : (mask == 0) = false := by simpa using hm
       have e2 : ((p.last == 0) && (PEv.rem != PEv.pre)) = false := by
